@@ -619,6 +619,176 @@ def gen_handlers() -> str:
     return "\n".join(out)
 
 
+# ---------------------------------------------------------------- process state inventory (C18)
+
+MUTATORS = {"append", "add", "update", "pop", "clear", "setdefault", "extend", "insert", "remove", "discard", "popitem", "sort", "reverse", "appendleft", "popleft"}
+
+
+def scan_state():
+    """Every place in src/dippy where state can outlive one analysis: `global` statements, cache decorators, stores into / mutator
+    calls on module-level names from function bodies, attribute stores on modules, setattr, mutable default arguments, mutated
+    class-level containers.  Returns sorted [file, kind, name]."""
+    out = set()
+    cache_sizes = {}
+    for d, _, fs in os.walk(SRC):
+        for f in sorted(fs):
+            if not f.endswith(".py"):
+                continue
+            p = os.path.join(d, f)
+            rel = os.path.relpath(p, SRC)
+            if rel == "dippy_statusline.py":
+                continue  # a separate program (C20), not part of the hook process
+            try:
+                m = ast.parse(open(p, encoding="utf-8").read())
+            except (OSError, SyntaxError):
+                MISSING.append("scan:" + rel)
+                continue
+            modnames = set()
+            for st in m.body:
+                if isinstance(st, ast.Assign):
+                    for t in st.targets:
+                        for n in ast.walk(t):
+                            if isinstance(n, ast.Name):
+                                modnames.add(n.id)
+                elif isinstance(st, (ast.AnnAssign, ast.AugAssign)) and isinstance(st.target, ast.Name):
+                    modnames.add(st.target.id)
+            imported = set()
+            for st in ast.walk(m):
+                if isinstance(st, ast.Import):
+                    for a in st.names:
+                        imported.add((a.asname or a.name).split(".")[0])
+                elif isinstance(st, ast.ImportFrom):
+                    for a in st.names:
+                        imported.add(a.asname or a.name)
+            class_attrs = {}
+            for node in ast.walk(m):
+                if isinstance(node, ast.ClassDef):
+                    for st in node.body:
+                        if isinstance(st, (ast.Assign, ast.AnnAssign)) and isinstance(getattr(st, "value", None), (ast.List, ast.Dict, ast.Set)):
+                            t = st.targets[0] if isinstance(st, ast.Assign) else st.target
+                            if isinstance(t, ast.Name):
+                                class_attrs[t.id] = node.name
+            for node in ast.walk(m):
+                # class-level containers that are mutated somewhere (x.ATTR[...] = / x.ATTR.add(...))
+                if isinstance(node, ast.Call) and isinstance(node.func, ast.Attribute) and node.func.attr in MUTATORS and isinstance(node.func.value, ast.Attribute) and node.func.value.attr in class_attrs:
+                    out.add((rel, "class-attr-mutated", class_attrs[node.func.value.attr] + "." + node.func.value.attr))
+                if isinstance(node, (ast.Assign, ast.AugAssign)):
+                    for t in (node.targets if isinstance(node, ast.Assign) else [node.target]):
+                        if isinstance(t, ast.Subscript) and isinstance(t.value, ast.Attribute) and t.value.attr in class_attrs:
+                            out.add((rel, "class-attr-mutated", class_attrs[t.value.attr] + "." + t.value.attr))
+                if not isinstance(node, (ast.FunctionDef, ast.AsyncFunctionDef)):
+                    continue
+                fn = node
+                for dec in fn.decorator_list:
+                    src = ast.unparse(dec)
+                    if "cache" in src:
+                        out.add((rel, "cache", fn.name))
+                        if isinstance(dec, ast.Call):
+                            for kw in dec.keywords:
+                                if kw.arg == "maxsize" and isinstance(kw.value, ast.Constant):
+                                    cache_sizes[fn.name] = kw.value.value
+                local = {a.arg for a in fn.args.args + fn.args.kwonlyargs + fn.args.posonlyargs}
+                if fn.args.vararg:
+                    local.add(fn.args.vararg.arg)
+                if fn.args.kwarg:
+                    local.add(fn.args.kwarg.arg)
+                globs = set()
+                for n in ast.walk(fn):
+                    if isinstance(n, ast.Global):
+                        globs.update(n.names)
+                for n in ast.walk(fn):
+                    tg = []
+                    if isinstance(n, ast.Assign):
+                        tg = n.targets
+                    elif isinstance(n, (ast.AnnAssign, ast.AugAssign, ast.For, ast.comprehension)):
+                        tg = [n.target]
+                    elif isinstance(n, ast.With):
+                        tg = [i.optional_vars for i in n.items if i.optional_vars is not None]
+                    for t in tg:
+                        for x in ast.walk(t):
+                            if isinstance(x, ast.Name) and isinstance(x.ctx, ast.Store) and x.id not in globs:
+                                local.add(x.id)
+                for g in globs:
+                    out.add((rel, "global", g))
+                for n in ast.walk(fn):
+                    if isinstance(n, (ast.Assign, ast.AugAssign, ast.Delete)):
+                        tg = n.targets if isinstance(n, (ast.Assign, ast.Delete)) else [n.target]
+                        for t in tg:
+                            if isinstance(t, ast.Subscript) and isinstance(t.value, ast.Name) and t.value.id in modnames and t.value.id not in local:
+                                out.add((rel, "store", t.value.id))
+                            if isinstance(t, ast.Attribute) and isinstance(t.value, ast.Name) and t.value.id not in local and t.value.id != "self" and (t.value.id in imported or t.value.id in modnames):
+                                out.add((rel, "attr-store", ast.unparse(t)))
+                    if isinstance(n, ast.Call) and isinstance(n.func, ast.Attribute) and n.func.attr in MUTATORS and isinstance(n.func.value, ast.Name) and n.func.value.id in modnames and n.func.value.id not in local:
+                        out.add((rel, "mutator", n.func.value.id))
+                    if isinstance(n, ast.Call) and isinstance(n.func, ast.Name) and n.func.id == "setattr":
+                        out.add((rel, "setattr", fn.name))
+                for dflt in fn.args.defaults + [x for x in fn.args.kw_defaults if x is not None]:
+                    if isinstance(dflt, (ast.List, ast.Dict, ast.Set)) or (isinstance(dflt, ast.Call) and isinstance(dflt.func, ast.Name) and dflt.func.id in ("list", "dict", "set")):
+                        out.add((rel, "mutable-default", fn.name))
+    return sorted(out), cache_sizes
+
+
+def gen_state() -> str:
+    inv, sizes = scan_state()
+    dp = parse_file("dippy.py")
+    cf = parse_file("core/config.py")
+    # main(): the first statements of the try body read stdin and (when no explicit mode) assign MODE
+    mode_first = False
+    f = find_func(dp, "main")
+    if f is not None:
+        for st in f.body:
+            if isinstance(st, ast.Try) and len(st.body) >= 2:
+                a, b = st.body[0], st.body[1]
+                ok_a = isinstance(a, ast.Assign) and "json.load" in ast.unparse(a.value)
+                ok_b = (isinstance(b, ast.If) and ast.unparse(b.test) == "_EXPLICIT_MODE is None" and b.body and isinstance(b.body[0], ast.Assign)
+                        and ast.unparse(b.body[0].targets[0]) == "MODE" and "_detect_mode_from_input" in ast.unparse(b.body[0].value))
+                mode_first = bool(ok_a and ok_b)
+    # MODE is assigned nowhere else
+    mode_stores = 0
+    if dp is not None:
+        for n in ast.walk(dp):
+            if isinstance(n, (ast.Assign, ast.AugAssign, ast.AnnAssign)):
+                for t in (n.targets if isinstance(n, ast.Assign) else [n.target]):
+                    if isinstance(t, ast.Name) and t.id == "MODE":
+                        mode_stores += 1
+    # configure_logging: `_log_disabled = False` is its first statement after the global declaration
+    reset_first = False
+    f = find_func(cf, "configure_logging")
+    if f is not None:
+        body = [st for st in f.body if not isinstance(st, (ast.Global, ast.Expr))]
+        if body and isinstance(body[0], ast.Assign) and ast.unparse(body[0]) == "_log_disabled = False":
+            reset_first = True
+    # every path of configure_logging assigns _log_config (all three branches)
+    assigns_cfg = 0
+    if f is not None:
+        for n in ast.walk(f):
+            if isinstance(n, ast.Assign) and any(isinstance(t, ast.Name) and t.id == "_log_config" for t in n.targets):
+                assigns_cfg += 1
+    txt = [
+        "-- GENERATED by harness/gen_tables.py: inventory of process-level mutable state in src/dippy (C18). Do not edit.",
+        "namespace Dippy.Generated",
+        "",
+        "/-- (file, kind, name) of every site where state can outlive one analysis -/",
+        "def mutableState : List (String × String × String) := [" + ",\n  ".join("(%s, %s, %s)" % (lean_str(a), lean_str(b), lean_str(c)) for a, b, c in inv) + "]",
+        "",
+        "/-- `lru_cache(maxsize=…)` of `_load_handler` -/",
+        "def handlerCacheSize : Nat := %d" % int(sizes.get("_load_handler", 0) or 0),
+        "",
+        "/-- main(): stdin is read and MODE assigned (when not explicit) before anything else in the try body -/",
+        "def mainAssignsModeFirst : Bool := " + ("true" if mode_first else "false"),
+        "/-- number of assignments to MODE in dippy.py (module level + main) -/",
+        "def modeStores : Nat := %d" % mode_stores,
+        "/-- configure_logging resets `_log_disabled` before anything else -/",
+        "def configureResetsDisabledFirst : Bool := " + ("true" if reset_first else "false"),
+        "/-- number of assignments to `_log_config` in configure_logging (one per path) -/",
+        "def configureAssignsLogConfig : Nat := %d" % assigns_cfg,
+        "",
+        "end Dippy.Generated",
+        "",
+    ]
+    return "\n".join(txt)
+
+
 def main() -> int:
     changed = []
     files = {
@@ -627,6 +797,7 @@ def main() -> int:
         "Parable.lean": gen_parable(),
         "Hook.lean": gen_hook(),
         "Handlers.lean": gen_handlers(),
+        "State.lean": gen_state(),
     }
     miss = (
         "-- GENERATED. Tables the translator could not find where it expected them.\n"
